@@ -209,6 +209,42 @@ def run(model: RepoModel, rep, tier: str):
                               f"`{norm(a_)}`: the flag that says whether a rule restricts by `{fld}` is computed from {read}: a rule that gives only "
                               f"`{fld}` is treated as unrestricted (and one that gives `{read[0] if read else '?'}` is filtered by an empty `{fld}`)")
 
+    # a rule restricts by what its author wrote: no method of EntryPointRule re-writes a configured field (normalising `proj/api/` to
+    # `proj/api` turns a directory restriction into a name prefix that also matches `proj/api_internal/`)
+    for name_, f_ in sorted(rule_cls.methods.items()):
+        for a_ in walk_no_nested(f_.node):
+            if isinstance(a_, (ast.Assign, ast.AugAssign)):
+                for t_ in (a_.targets if isinstance(a_, ast.Assign) else [a_.target]):
+                    if is_self_attr(t_) and t_.attr in fields:
+                        key = f"{EP}::EntryPointRule.{name_}::`self.{t_.attr}` is compared as configured"
+                        rep.violation("C20.R1", key, EP, a_.lineno,
+                                      f"EntryPointRule.{name_} re-writes the configured field `{t_.attr}` (`{norm(a_)[:70]}`): the filters then compare something the "
+                                      f"rule's author did not write -- os.path.normpath drops the trailing `/` of a directory restriction, and the substring test "
+                                      f"on the remaining prefix also selects sibling files and directories whose names start the same way")
+    key = f"{EP}::EntryPointRule::configured fields are never re-written"
+    if not any(i.key.endswith("is compared as configured") for i in rep.instances):
+        rep.holds("C20.R1", key, EP, rule_cls.node.lineno, f"no method assigns to {sorted(fields)[:4]}...")
+    # the settings directory the user names is the one that is used: it is replaced by the built-in one only when the option is absent or
+    # empty, never because of what the directory does or does not contain (a directory with `python-entry.yaml` only, or with no entry
+    # file at all -- the empty rule set -- is a configuration, not a mistake)
+    mm_ = model.module("main.py")
+    pc = next((f_ for c_ in mm_.classes.values() for f_ in c_.methods.values() if any(
+        isinstance(a_, ast.Assign) and any((dotted(t_) or "").endswith("options.default_settings") for t_ in a_.targets) and (dotted(a_.value) or "").endswith("DEFAULT_SETTINGS")
+        for a_ in walk_no_nested(f_.node))), None)
+    key = "main.py::the configured settings directory is replaced only when none is given"
+    if pc is None:
+        rep.unknown("C20.R1", key, "main.py", 0, "the fallback to config.DEFAULT_SETTINGS was not found")
+    else:
+        pcfg = cfg_of(pc.node)
+        nd = next(n for n in pcfg.g.nodes if pcfg.kind[n] == "stmt" and isinstance(pcfg.stmt[n], ast.Assign) and (dotted(pcfg.stmt[n].value) or "").endswith("DEFAULT_SETTINGS"))
+        fs_calls = [c for a_, _t in pcfg.conditions_at(nd) for c in ast.walk(a_) if isinstance(c, ast.Call) and ((call_name(c) or "").startswith("os.") or (call_name(c) or "") in ("open", "glob.glob"))]
+        if fs_calls:
+            rep.violation("C20.R1", key, "main.py", fs_calls[0].lineno,
+                          f"{pc.qualname} falls back to the built-in settings depending on `{norm(fs_calls[0])[:90]}`, i.e. on the CONTENT of the directory the user "
+                          f"named: rules kept in `<lang>-entry.yaml` or in a sub-directory (which the loader accepts), or a deliberately empty rule set, are "
+                          f"silently replaced by the shipped rules -- methods nobody configured become starting points")
+        else:
+            rep.holds("C20.R1", key, "main.py", pcfg.stmt[nd].lineno, "the fallback is guarded by the presence / emptiness of the option only")
     # ------------------------------------------------------------------ R2
     cfg = cfg_of(meth_filter.node)
     adds = [n for n in cfg.g.nodes for c in cfg.calls_at(n) if isinstance(c.func, ast.Attribute) and c.func.attr == "add"
